@@ -1,4 +1,5 @@
-(* C15 / C16 / C17: replay panel scenarios on the extracted model Model/Panel.v.
+(* (identical copy of c17_driver.ml, kept per property because each check builds only its own targets)
+   C15 / C16 / C17: replay panel scenarios on the extracted model Model/Panel.v.
    input line : <id> <prefix 0|1><patched 0|1> <now> <users> <notices> <step> <step> ...
      notices = comma separated <k>:<bytes> (wire size of the notice frame Session.Close sent for session k) | -
      users = comma separated  <uid>:<cap>:<up>:<down>:<expiry>  |  b<uid> (bypass UID)  |  - (none)
